@@ -118,7 +118,7 @@ func (g *G) value(k Kind, role, def string) string {
 
 // ---- value alphabets (choice 0 is the role's own default) ------------------------------------------
 
-var hardIdents = []string{"b", "_x1", "my db", `sel"ect`, "select", "1h", "a.b", "é👍", "new\nline", "Time", `back\slash`}
+var hardIdents = []string{"b", "_x1", "my db", `sel"ect`, "select", "1h", "a.b", "é👍", "new\nline", "Time", `back\slash`, "true", "OR"}
 var hardStrings = []string{"", "it's", `a\b`, "x\ny", "é", "; DROP DATABASE d --", `"`, "/* c */"}
 
 func (g *G) ident(role, def string) string {
